@@ -292,6 +292,29 @@ def _short(x):
     return s if len(s) < 500 else s[:500] + "..."
 
 
+def fuzz_one(data):
+    """Atheris entry (E4): byte 0 = role and number of cuts, next bytes = cut positions, rest = the stream"""
+    if len(data) < 2:
+        return [], "short", False
+    role = data[0] & 1
+    ncuts = (data[0] >> 1) & 3
+    cuts = sorted(set(data[1 : 1 + ncuts]))
+    stream = data[1 + ncuts :]
+    out = run_stream({"items": [{"kind": "raw", "bytes": stream}], "cuts": [c for c in cuts if 0 < c < len(stream)], "is_server": bool(role), "also_whole": True})
+    label = out.labels[0] if out.labels else "plain"
+    return out.violations, label, out.nontrivial
+
+
+def _atheris(tier, seed, known):
+    import os
+
+    from vlib import fuzz
+
+    runs = {"quick": 15000, "thorough": 600000}[tier]
+    workers = {"quick": 2, "thorough": 16}[tier]
+    return fuzz.run("checks.c15", runs, workers, seed, known, corpus=os.path.join(os.path.dirname(os.path.dirname(os.path.abspath(__file__))), "corpus", "c15"))
+
+
 # --------------------------------------------------------------------------------------
 # serialisation
 
@@ -578,6 +601,7 @@ def build(tier):
         [
             Sub("stream", run_stream, strategy=_stream_case, budget={"quick": 3000, "thorough": 60000}, max_wall={"quick": 50, "thorough": 1800}),
             Sub("mutated", run_stream, strategy=_mutated_case, budget={"quick": 3000, "thorough": 60000}, max_wall={"quick": 50, "thorough": 1800}),
+            Sub("atheris", run_stream, strategy=_mutated_case, external=_atheris, note="coverage-guided (libFuzzer via Atheris): bytes -> (role, cut set, stream), reference-endpoint oracle inside the target; skipped with a note if atheris is not installed"),
             Sub("serialize", run_serialize, strategy=_fields, budget={"quick": 1500, "thorough": 30000}, max_wall={"quick": 40, "thorough": 900}),
             Sub("lengths", run_lengths, cases=cases_lengths, exhaustive=True),
             Sub("pending", run_pending, strategy=_pending_case, budget={"quick": 400, "thorough": 5000}, max_wall={"quick": 40, "thorough": 600}),
